@@ -80,6 +80,11 @@ def main():
         if o["obs"].get("result") != "ok":
             raise ToolError("cannot prepare the data files: %s" % o["obs"])
     shutil.copyfile(os.path.join(initdir, "a.bw"), os.path.join(initdir, "e.txt"))
+    if run.thorough:
+        # design level: the whole reachable object-state space (1 handle, 1 iterator, 1 writer, 5 paths): ReaderCoherent / IterCoherent / TypeOK
+        r = tlc("MC_PyApi", "MC_PyApi_bfs.cfg", os.path.join(run.wd, "bfs"), workers=6, timeout=2400, xmx="8g", collect_replays=False)
+        tlc_must_pass(r, "MC_PyApi (exhaustive object-state space)")
+        run.add_tlc("object_state_space_exhaustive", r)
     seqs, seen = [], set()
     rounds = 6 if run.thorough else 2
     for k in range(rounds):
